@@ -53,6 +53,44 @@ Theorem C06_restarts_numbersdirect sp t0 off rs :
     /\ concat files = runs_written rs.
 Proof. exact (numbersdirect_restarts_partial sp t0 off rs). Qed.
 
+Require Import FL.Flw.TsTime FL.Flw.TsNames FL.Flw.TsInv FL.Flw.TsRun FL.Flw.TsTheorems FL.Flw.TsRestartInv FL.Flw.TsRestart.
+(* Timestamps naming, any sequence of runs (own criterion, capacity, append flag per run; ticks inside and between runs; all runs with the same
+   use_utc setting - shown necessary by an example): the closed files carry keys (second, position) that are pairwise distinct and increase in
+   closing order over the WHOLE history - no name is used twice across runs - and closed files ++ rCURRENT hold exactly what all runs wrote *)
+Theorem C06_restarts_timestamps sp utc t0 off rs :
+  Forall (run_ok_ts sp utc) rs ->
+  let e := if utc then 0%Z else off in
+  (0 <= t0 + e)%Z -> (t0 + elapsed (runs_ops_t rs) + e < sec_max)%Z -> (N.of_nat (length (runs_ops_t rs)) <= usize_max)%N ->
+  let f := wfs (s_w (fst (run (sys0 t0 off) (runs_ops_t rs)))) in
+  (names f = [] /\ runs_written_t rs = [])
+  \/ exists keys closed cur,
+       (forall c, c_spec c = sp -> ts_view c e f keys closed cur)
+       /\ concat closed ++ cur = runs_written_t rs
+       /\ keys_ok keys
+       /\ (forall k, In k keys -> (t0 <= fst k <= t0 + elapsed (runs_ops_t rs))%Z).
+Proof. exact (timestamps_restarts sp utc t0 off rs). Qed.
+
+(* ... and a later run never changes a closed file; the former rCURRENT is continued (append) or closed under the key of its own creation second *)
+Theorem C06_restarts_timestamps_keep sp utc t0 off rs1 rs2 :
+  Forall (run_ok_ts sp utc) (rs1 ++ rs2) ->
+  let e := if utc then 0%Z else off in
+  (0 <= t0 + e)%Z -> (t0 + elapsed (runs_ops_t (rs1 ++ rs2)) + e < sec_max)%Z ->
+  (N.of_nat (length (runs_ops_t (rs1 ++ rs2))) <= usize_max)%N ->
+  let f1 := wfs (s_w (fst (run (sys0 t0 off) (runs_ops_t rs1)))) in
+  let f2 := wfs (s_w (fst (run (sys0 t0 off) (runs_ops_t (rs1 ++ rs2))))) in
+  (names f1 = [] /\ runs_written_t rs1 = [])
+  \/ exists keys1 closed1 cur1 ts1 keys2 closed2 cur2,
+       (forall c, c_spec c = sp ->
+          ts_view c e f1 keys1 closed1 cur1 /\ exists j, lookup f1 (cname c) = Some j /\ fborn (inode f1 j) = ts1)
+       /\ concat closed1 ++ cur1 = runs_written_t rs1
+       /\ (forall k, In k keys1 -> (fst k <= ts1)%Z)
+       /\ (forall c, c_spec c = sp -> ts_view c e f2 keys2 closed2 cur2)
+       /\ concat closed2 ++ cur2 = runs_written_t (rs1 ++ rs2)
+       /\ keys_ok keys2
+       /\ ((keys2 = keys1 /\ closed2 = closed1 /\ exists t, cur2 = cur1 ++ t)
+           \/ exists t mk mc, keys2 = keys1 ++ (ts1, count ts1 keys1) :: mk /\ closed2 = closed1 ++ (cur1 ++ t) :: mc).
+Proof. exact (timestamps_restarts_keep sp utc t0 off rs1 rs2). Qed.
+
 Check C06_oracle_sound. Check C06_tail_sound. Check C06_restarts_numbers. Check C06_restarts_keep.
 Print Assumptions C06_restarts_numbers.
 Print Assumptions C06_restarts_keep.
@@ -60,3 +98,7 @@ Print Assumptions C06_oracle_sound.
 Print Assumptions C06_tail_sound.
 Check C06_restarts_numbersdirect.
 Print Assumptions C06_restarts_numbersdirect.
+Check C06_restarts_timestamps.
+Print Assumptions C06_restarts_timestamps.
+Check C06_restarts_timestamps_keep.
+Print Assumptions C06_restarts_timestamps_keep.
